@@ -12,16 +12,23 @@ package iavl
 
 //@ ghost tree.cur Int
 //@ ghost tree.saved (Array Int Bool)
+// environment oracles: whether the next save / the next delete of an existing version fails (disk error)
+//@ ghost tree.failsave Bool
+//@ ghost tree.faildel Bool
 
 //@ iface func (t Tree) SaveVersion() (hash []byte, version int64, err error)
 //@   mode heap
 //@   modifies tree.cur, tree.saved
+//@   ensures (err != nil) == tree.failsave
 //@   ensures err == nil ==> version == old(tree.cur) + 1 && tree.cur == version && tree.saved == upd(old(tree.saved), version, true)
 //@   ensures err != nil ==> tree.cur == old(tree.cur) && tree.saved == old(tree.saved)
 //@ iface func (t Tree) DeleteVersion(version int64) (err error)
 //@   mode heap
 //@   modifies tree.saved
 //@   ensures tree.saved == upd(old(tree.saved), version, false)
+//@   ensures old(tree.saved[version]) ==> ((err != nil) == tree.faildel && (err != nil ==> err_cause(err) != global("github.com/tendermint/iavl.ErrVersionDoesNotExist")))
+// tendermint/iavl v0.12.4 mutable_tree.go:437: a version that is not there yields errors.Wrap(ErrVersionDoesNotExist, "")
+//@   ensures !old(tree.saved[version]) ==> err != nil && err != global("github.com/tendermint/iavl.ErrVersionDoesNotExist") && err_cause(err) == global("github.com/tendermint/iavl.ErrVersionDoesNotExist")
 
 // C12: Commit advances the version by exactly one and applies the pruning policy exactly:
 // afterwards the loadable versions are the new one plus the old ones, minus (new-1-numRecent)
@@ -33,9 +40,15 @@ package iavl
 //@ func (st *Store) Commit() (id types.CommitID)
 //@   props C12 C13
 //@   requires 0 <= tree.cur && tree.cur < 9223372036854775807 && st.numRecent >= 0 && st.storeEvery >= 0
-//@   requires forall u int :: 1 <= u && u <= tree.cur ==> (tree.saved[u] <==> (u >= tree.cur - st.numRecent || (st.storeEvery != 0 && u % st.storeEvery == 0)))
+// the retention invariant at entry, except that the version this commit is about to prune may already be gone
+// (a commit interrupted by a crash is executed again from the previous version: C13)
+//@   requires forall u int :: 1 <= u && u <= tree.cur && tree.saved[u] ==> (u >= tree.cur - st.numRecent || (st.storeEvery != 0 && u % st.storeEvery == 0))
+//@   requires forall u int :: 1 <= u && u <= tree.cur && (u > tree.cur - st.numRecent || (st.storeEvery != 0 && u % st.storeEvery == 0)) ==> tree.saved[u]
+//@   requires global("github.com/tendermint/iavl.ErrVersionDoesNotExist") != nil
 //@   modifies tree.cur, tree.saved
-//@   may_panic
+// Commit panics exactly when the disk fails - in particular not when the version to prune is already gone
+//@   panics when tree.failsave
+//@   panics when !tree.failsave && st.numRecent < tree.cur && (st.storeEvery == 0 || (tree.cur - st.numRecent) % st.storeEvery != 0) && tree.saved[tree.cur - st.numRecent] && tree.faildel
 //@   ensures [version] id.Version == old(tree.cur) + 1 && tree.cur == id.Version
 //@   ensures [retention] forall u int :: 1 <= u && u <= tree.cur ==> (tree.saved[u] <==> (u >= tree.cur - st.numRecent || (st.storeEvery != 0 && u % st.storeEvery == 0)))
 //@   ensures [onlyone] forall u int :: u != id.Version && u != id.Version - 1 - st.numRecent ==> tree.saved[u] == old(tree.saved[u])
@@ -46,3 +59,16 @@ package iavl
 //@   props C12
 //@   modifies st.numRecent, st.storeEvery
 //@   ensures st.numRecent == opt.keepRecent && st.storeEvery == opt.keepEvery
+
+//@ func UnsafeNewStore(tree *iavl.MutableTree, numRecent int64, storeEvery int64) (st *Store)
+//@   props C12
+//@   ensures fresh(st) && st.numRecent == numRecent && st.storeEvery == storeEvery
+
+// C12: a store loaded from disk applies exactly the pruning policy it was loaded with.
+// tendermint/iavl's NewMutableTree / LoadVersion / LazyLoadVersion: /verif/spec/extern/iavl.go.txt.
+//@ func LoadStore(db dbm.DB, id types.CommitID, pruning types.PruningOptions, lazyLoading bool) (r types.CommitStore, err error)
+//@   props C12
+//@   may_panic
+//@   ensures [policy] err == nil ==> unbox(r, "*store/iavl.Store").numRecent == pruning.keepRecent && unbox(r, "*store/iavl.Store").storeEvery == pruning.keepEvery
+//@   ensures [typed] err == nil ==> dyntype(r) == typeid("*store/iavl.Store")
+//@   ensures [failed] err != nil ==> !ifacenotnil(r)
